@@ -23,6 +23,8 @@ type FuncInfo struct {
 	Obj  *types.Func
 	Loops map[ast.Node]int // ordinal (1-based, pre-order) of each for/range statement
 	NLoops int
+	Anchors map[ast.Stmt][]string // block-level statement -> "callee#k" of the calls it contains outside nested blocks (source order ordinals)
+	CallOrd map[string]int        // callee key -> number of call sites in the body
 }
 
 type Engine struct {
@@ -109,6 +111,7 @@ func LoadEngine(repo string) (*Engine, error) {
 					return true
 				})
 				fi.NLoops = n
+				e.indexAnchors(fi)
 				e.funcs[fi.Key] = fi
 				e.byObj[obj] = fi
 			}
@@ -161,6 +164,14 @@ func (e *Engine) LoadSpec(dir string) error {
 			e.contractErrs[k] = fmt.Sprintf("%s: contract names function %s which does not exist in the working tree", c.Pos, k)
 			continue
 		}
+		for ak := range c.Afters {
+			i := strings.LastIndex(ak, "#")
+			n := 0
+			fmt.Sscanf(ak[i+1:], "%d", &n)
+			if n < 1 || n > fi.CallOrd[ak[:i]] {
+				e.contractErrs[k] = fmt.Sprintf("%s: contract of %s anchors an assertion after call %s but the function has %d call(s) of %s", c.Pos, k, ak, fi.CallOrd[ak[:i]], ak[:i])
+			}
+		}
 		for n := range c.Loops {
 			if n < 0 || n > fi.NLoops {
 				e.contractErrs[k] = fmt.Sprintf("%s: contract of %s names loop %d but the function has %d loops", c.Pos, k, n, fi.NLoops)
@@ -197,4 +208,79 @@ func (e *Engine) pos(n ast.Node) string {
 		rel = p.Filename
 	}
 	return fmt.Sprintf("%s:%d", rel, p.Line)
+}
+
+// indexAnchors numbers the call sites of each callee in source order and attaches them to the block-level
+// statement that contains them (nested blocks own their own statements).
+func (e *Engine) indexAnchors(fi *FuncInfo) {
+	fi.Anchors = map[ast.Stmt][]string{}
+	fi.CallOrd = map[string]int{}
+	info := fi.Pkg.TypesInfo
+	name := map[*ast.CallExpr]string{}
+	ast.Inspect(fi.Decl.Body, func(nd ast.Node) bool {
+		if _, ok := nd.(*ast.FuncLit); ok {
+			return false
+		}
+		call, ok := nd.(*ast.CallExpr)
+		if !ok {
+			return true
+		}
+		var fn *types.Func
+		switch f := call.Fun.(type) {
+		case *ast.Ident:
+			fn, _ = info.Uses[f].(*types.Func)
+		case *ast.SelectorExpr:
+			fn, _ = info.Uses[f.Sel].(*types.Func)
+		}
+		if fn != nil {
+			k := funcKey(fn)
+			fi.CallOrd[k]++
+			name[call] = fmt.Sprintf("%s#%d", k, fi.CallOrd[k])
+		}
+		return true
+	})
+	var walkBlock func(stmts []ast.Stmt)
+	collect := func(owner ast.Stmt, nd ast.Node) {
+		if nd == nil {
+			return
+		}
+		ast.Inspect(nd, func(x ast.Node) bool {
+			switch y := x.(type) {
+			case *ast.BlockStmt:
+				walkBlock(y.List)
+				return false
+			case *ast.CaseClause:
+				for _, ex := range y.List {
+					ast.Inspect(ex, func(z ast.Node) bool {
+						if c, ok := z.(*ast.CallExpr); ok && name[c] != "" {
+							fi.Anchors[owner] = append(fi.Anchors[owner], name[c])
+						}
+						return true
+					})
+				}
+				walkBlock(y.Body)
+				return false
+			case *ast.FuncLit:
+				return false
+			case *ast.CallExpr:
+				if name[y] != "" {
+					fi.Anchors[owner] = append(fi.Anchors[owner], name[y])
+				}
+			}
+			return true
+		})
+	}
+	walkBlock = func(stmts []ast.Stmt) {
+		for _, s := range stmts {
+			owner := s
+			if ls, ok := s.(*ast.LabeledStmt); ok {
+				// the labelled statement is executed as the first statement of the label loop's body
+				owner = ls.Stmt
+				collect(owner, ls.Stmt)
+				continue
+			}
+			collect(owner, s)
+		}
+	}
+	walkBlock(fi.Decl.Body.List)
 }
